@@ -65,7 +65,7 @@ ASSUMPTIONS = [
     "int ** non-negative int is related to it by pow_int_exact_partial",
 ]
 
-QUICK_RANDOM = 140
+QUICK_RANDOM = 120
 THOROUGH_RANDOM = 3500
 
 
